@@ -501,7 +501,7 @@ def main(argv):
             ov = make_overlay(tmp)
             mods = sorted(set(o["module"] for o in kobs))
             overlay_diff = attach_kani_modules(ov, mods, KANI_DIR)
-            tmo = max(o.get("timeout", 600 if tier == "quick" else 1800) for o in kobs)
+            tmo = max(o.get("timeout", 1500 if tier == "quick" else 3600) for o in kobs)
             kres, kani_raw, kani_wall, kani_cmd, rc = run_kani(ov, kobs, a.jobs, tmo)
             if all(r["status"] == "missing" for r in kres.values()):
                 log(kani_raw[-6000:])
